@@ -4,23 +4,29 @@ import (
 	"encoding/binary"
 	"fmt"
 	"testing"
+	"time"
 
 	"pgregory.net/rapid"
 
 	"verif/harness/stats"
 )
 
-// Offset aliasing.  The layout tables, GDEF and the name table are trees of
+// Offset aliasing, ranges and zero-size records.  The layout tables, GDEF and the name table are trees of
 // offsets, and nothing keeps a table from pointing many offsets at one
 // target.  A reader that decodes a target once per reference does work and
 // allocates memory in proportion to (references x size of the target), which
 // for a coverage table spelled as one range is 65536 map entries for ten
-// bytes.  This is a recorded finding of C02 (known-findings.txt, keys
-// alloc-aliased:*): the builders below are its reproducers, and classifier
-// aliasClass recognises the class on any input - by a structural walk that
-// is independent of the library - so that an allocation violation of this
-// class is matched by key while every other allocation violation is still
-// reported.
+// bytes.  The same holds without any aliasing: the decoded form of a coverage
+// or class definition table is a map with one entry per glyph, so that a
+// hundred subtables with a range each cost as much; and a GPOS value format
+// without fields makes value records take no input bytes, so that the record
+// counts of single (format 2) and pair (format 2) adjustment subtables are
+// free.  These are recorded findings of C02 (known-findings.txt, keys
+// alloc-aliased:*, alloc-expanded:*): the builders below are the reproducers,
+// and walkExpansion measures the class on any input - by a structural walk
+// that is independent of the library - so that an allocation violation that
+// the expansion accounts for is matched by key while every other allocation
+// violation, also on an input of the class, is still reported.
 
 func be16(b []byte, v int) []byte { return append(b, byte(v>>8), byte(v)) }
 
@@ -54,6 +60,67 @@ func aliasedLayoutTable(kind string, n, covGlyphs int) []byte {
 	return append(b, lk...)
 }
 
+// rangeCoverageTable is a GSUB table with one lookup of n single substitution
+// subtables, each with a coverage table of its own: one range, covGlyphs glyphs.
+func rangeCoverageTable(n, covGlyphs int) []byte {
+	b := []byte{0, 1, 0, 0, 0, 10, 0, 12, 0, 14, 0, 0, 0, 0}
+	b = append(b, 0, 1, 0, 4)
+	lk := []byte{0, 1, 0, 0}
+	lk = be16(lk, n)
+	const subLen = 16
+	for i := 0; i < n; i++ {
+		lk = be16(lk, 6+2*n+subLen*i)
+	}
+	for i := 0; i < n; i++ {
+		lk = append(lk, 0, 1, 0, 6, 0, 1)
+		lk = append(lk, 0, 2, 0, 1, 0, 0)
+		lk = be16(lk, covGlyphs-1)
+		lk = append(lk, 0, 0)
+	}
+	return append(b, lk...)
+}
+
+// zeroSizeRecordTable is a GPOS table with one lookup of n pair adjustment
+// subtables of format 2 (pair=true: value formats vf, vf; c1 x c2 class pairs)
+// or single adjustment subtables of format 2 (c1 records), each with its own
+// empty coverage and class definition tables.
+func zeroSizeRecordTable(pair bool, n, vf, c1, c2 int) []byte {
+	b := []byte{0, 1, 0, 0, 0, 10, 0, 12, 0, 14, 0, 0, 0, 0}
+	b = append(b, 0, 1, 0, 4)
+	lk := []byte{0, 2, 0, 0}
+	subLen := 32
+	if !pair {
+		lk[1], subLen = 1, 12
+	}
+	lk = be16(lk, n)
+	for i := 0; i < n; i++ {
+		lk = be16(lk, 6+2*n+subLen*i)
+	}
+	for i := 0; i < n; i++ {
+		if pair {
+			s := []byte{0, 2}
+			s = be16(s, 16) // coverage
+			s = be16(s, vf)
+			s = be16(s, vf)
+			s = be16(s, 20)
+			s = be16(s, 26)
+			s = be16(s, c1)
+			s = be16(s, c2)
+			s = append(s, 0, 1, 0, 0)       // coverage, format 1, no glyphs
+			s = append(s, 0, 1, 0, 0, 0, 0) // class definitions, format 1, no glyphs
+			s = append(s, 0, 1, 0, 0, 0, 0)
+			lk = append(lk, s...)
+		} else {
+			s := []byte{0, 2, 0, 8}
+			s = be16(s, vf)
+			s = be16(s, c1)
+			s = append(s, 0, 1, 0, 0)
+			lk = append(lk, s...)
+		}
+	}
+	return append(b, lk...)
+}
+
 // aliasedGdef is a GDEF 1.2 table whose n mark glyph sets all are one coverage table.
 func aliasedGdef(n, covGlyphs int) []byte {
 	b := []byte{0, 1, 0, 2, 0, 0, 0, 0, 0, 0, 0, 0, 0, 14}
@@ -66,6 +133,23 @@ func aliasedGdef(n, covGlyphs int) []byte {
 	mgs = append(mgs, 0, 2, 0, 1, 0, 0)
 	mgs = be16(mgs, covGlyphs-1)
 	mgs = append(mgs, 0, 0)
+	return append(b, mgs...)
+}
+
+// rangeGdef is a GDEF 1.2 table whose n mark glyph sets each have a coverage
+// table of their own: one range, covGlyphs glyphs.
+func rangeGdef(n, covGlyphs int) []byte {
+	b := []byte{0, 1, 0, 2, 0, 0, 0, 0, 0, 0, 0, 0, 0, 14}
+	mgs := []byte{0, 1}
+	mgs = be16(mgs, n)
+	for i := 0; i < n; i++ {
+		mgs = binary.BigEndian.AppendUint32(mgs, uint32(4+4*n+10*i))
+	}
+	for i := 0; i < n; i++ {
+		mgs = append(mgs, 0, 2, 0, 1, 0, 0)
+		mgs = be16(mgs, covGlyphs-1)
+		mgs = append(mgs, 0, 0)
+	}
 	return append(b, mgs...)
 }
 
@@ -90,12 +174,58 @@ func aliasedName(n, strLen int) []byte {
 	return b
 }
 
-// aliasClass classifies an input of the named target: "" or the name of an
-// aliasing class.  An input belongs to a class when the sizes of the offset
-// targets, counted once per reference, come to at least eight times their
-// sizes counted once per distinct target, and to an amount that matters
-// (2^17 glyph entries, 2^21 string bytes: less cannot exceed the allocation bound).
+// expansion is the result of the structural walk of one input: how many
+// entries of the decoded representation its offset targets stand for, counted
+// once per reference (refs) and once per distinct target (distinct).  An
+// entry is one covered glyph of a coverage table, one classified glyph of a
+// class definition table, one value record of zero bytes (a GPOS value format
+// without fields makes the record count of a subtable free), or, for the name
+// table, one byte of string data.
+type expansion struct{ refs, distinct int }
+
+// bytesPerEntry bounds what one entry may cost (map entries, pointers, records
+// and the re-encoder's copies; measured: 24-60 bytes); timePerEntry likewise.
+const (
+	bytesPerEntry = 256
+	timePerEntry  = 5 * time.Microsecond
+)
+
+// class names the finding the input belongs to: "" when the expansion is too
+// small to matter (less than 2^17 entries, 2^21 string bytes: that much cannot
+// exceed the allocation bound), "aliased:..." when references outnumber
+// distinct targets eight to one, "expanded:..." otherwise (ranges, zero-size
+// records).
+func (e expansion) class(target string) string {
+	min := 1 << 17
+	what := "coverage:"
+	if target == "name.Decode" {
+		min, what = 1<<21, "strings:"
+	}
+	if e.refs < min {
+		return ""
+	}
+	if e.refs >= 8*e.distinct {
+		return "aliased:" + what + target
+	}
+	return "expanded:" + target
+}
+
+// aliasClass classifies an input of the named target (see expansion.class).
 func aliasClass(target string, b []byte) string {
+	return walkExpansion(target, b).class(target)
+}
+
+// explained reports whether an allocation (or CPU time) beyond the bound is
+// accounted for by the expansion: a violation of another cause on an input
+// of the class is still reported.
+func (e expansion) explainsAlloc(excess uint64) bool {
+	return excess <= uint64(e.refs)*bytesPerEntry
+}
+func (e expansion) explainsCPU(excess time.Duration) bool {
+	return excess <= time.Duration(e.refs)*timePerEntry
+}
+
+func walkExpansion(target string, b []byte) expansion {
 	u16 := func(p int) int {
 		if p < 0 || p+2 > len(b) {
 			return -1
@@ -119,21 +249,96 @@ func aliasClass(target string, b []byte) string {
 		}
 		return 0
 	}
-	var refs, distinct int
-	seen := map[int]bool{}
-	ref := func(p int) {
-		sz := covSize(p)
-		refs += sz
-		if !seen[p] {
-			seen[p] = true
-			distinct += sz
+	classSize := func(p int) int {
+		switch u16(p) {
+		case 1:
+			return max(u16(p+4), 0)
+		case 2:
+			n, total := u16(p+2), 0
+			for i := 0; i < n && i < 10000; i++ {
+				s, e := u16(p+4+6*i), u16(p+6+6*i)
+				if s < 0 || e < s {
+					break
+				}
+				total += e - s + 1
+			}
+			return total
+		}
+		return 0
+	}
+	var ex expansion
+	seen := map[[2]int]bool{}
+	add := func(kind, p, sz int) {
+		ex.refs += sz
+		if !seen[[2]int{kind, p}] {
+			seen[[2]int{kind, p}] = true
+			ex.distinct += sz
+		}
+	}
+	cov := func(base, offPos int) {
+		if c := u16(offPos); c > 0 {
+			add(0, base+c, covSize(base+c))
+		}
+	}
+	cls := func(base, offPos int) {
+		if c := u16(offPos); c > 0 {
+			add(1, base+c, classSize(base+c))
+		}
+	}
+	// covArray walks count, offsets... at p and returns the position after it
+	covArray := func(base, p int) int {
+		n := u16(p)
+		if n < 0 {
+			return -1
+		}
+		for i := 0; i < n; i++ {
+			cov(base, p+2+2*i)
+		}
+		return p + 2 + 2*n
+	}
+	recSize := func(vf int) int {
+		n := 0
+		for k := 0; k < 8; k++ {
+			if vf>>k&1 != 0 {
+				n += 2
+			}
+		}
+		return n
+	}
+	context := func(sp int, chained bool) {
+		switch u16(sp) {
+		case 1:
+			cov(sp, sp+2)
+		case 2:
+			cov(sp, sp+2)
+			cls(sp, sp+4)
+			if chained {
+				cls(sp, sp+6)
+				cls(sp, sp+8)
+			}
+		case 3:
+			if chained {
+				p := covArray(sp, sp+2)
+				if p > 0 {
+					p = covArray(sp, p)
+				}
+				if p > 0 {
+					covArray(sp, p)
+				}
+			} else {
+				n := u16(sp + 2)
+				for i := 0; i < n; i++ {
+					cov(sp, sp+6+2*i)
+				}
+			}
 		}
 	}
 	switch target {
 	case "gtab.Read/GSUB", "gtab.Read/GPOS":
+		gpos := target == "gtab.Read/GPOS"
 		ll := u16(8)
 		if ll < 0 {
-			return ""
+			return ex
 		}
 		nl := u16(ll)
 		for i := 0; i < nl && i < 20000; i++ {
@@ -149,7 +354,7 @@ func aliasClass(target string, b []byte) string {
 					break
 				}
 				sp, tp := lp+so, ltype
-				if (target == "gtab.Read/GSUB" && tp == 7) || (target == "gtab.Read/GPOS" && tp == 9) {
+				if (!gpos && tp == 7) || (gpos && tp == 9) {
 					// extension subtable: type, 32-bit offset
 					tp = u16(sp + 2)
 					hi, lo := u16(sp+4), u16(sp+6)
@@ -158,26 +363,53 @@ func aliasClass(target string, b []byte) string {
 					}
 					sp += hi<<16 | lo
 				}
-				if c := u16(sp + 2); c > 0 {
-					ref(sp + c)
-				}
-				if target == "gtab.Read/GPOS" && tp >= 4 && tp <= 6 {
-					if c := u16(sp + 4); c > 0 {
-						ref(sp + c)
+				format := u16(sp)
+				switch {
+				case !gpos && tp >= 1 && tp <= 4, gpos && tp == 3:
+					cov(sp, sp+2)
+				case !gpos && tp == 5, gpos && tp == 7:
+					context(sp, false)
+				case !gpos && tp == 6, gpos && tp == 8:
+					context(sp, true)
+				case !gpos && tp == 8:
+					cov(sp, sp+2)
+					if p := covArray(sp, sp+4); p > 0 {
+						covArray(sp, p)
 					}
+				case gpos && tp == 1:
+					cov(sp, sp+2)
+					if format == 2 && recSize(u16(sp+4)) == 0 {
+						add(2, sp, max(u16(sp+6), 0))
+					}
+				case gpos && tp == 2:
+					cov(sp, sp+2)
+					if format == 2 {
+						cls(sp, sp+8)
+						cls(sp, sp+10)
+						if recSize(u16(sp+4)) == 0 && recSize(u16(sp+6)) == 0 {
+							add(2, sp, max(u16(sp+12), 0)*max(u16(sp+14), 0))
+						}
+					}
+				case gpos && tp >= 4 && tp <= 6:
+					cov(sp, sp+2)
+					cov(sp, sp+4)
 				}
 			}
 		}
-		if refs >= 1<<17 && refs >= 8*distinct {
-			return "coverage:" + target
-		}
 	case "gdef.Read":
+		cls(0, 4)
+		cls(0, 10)
+		for _, lp := range []int{6, 8} { // attachment list, ligature caret list
+			if l := u16(lp); l > 0 {
+				cov(l, l)
+			}
+		}
 		if u16(2) < 2 {
-			return ""
+			return ex
 		}
 		mp := u16(12)
 		if mp <= 0 {
-			return ""
+			return ex
 		}
 		n := u16(mp + 2)
 		for i := 0; i < n; i++ {
@@ -185,31 +417,24 @@ func aliasClass(target string, b []byte) string {
 			if hi < 0 || lo < 0 {
 				break
 			}
-			ref(mp + (hi<<16 | lo))
-		}
-		if refs >= 1<<17 && refs >= 8*distinct {
-			return "coverage:" + target
+			p := mp + (hi<<16 | lo)
+			add(0, p, covSize(p))
 		}
 	case "name.Decode":
 		n := u16(2)
-		type span struct{ off, length int }
-		spans := map[span]bool{}
 		for i := 0; i < n; i++ {
 			l, o := u16(6+12*i+8), u16(6+12*i+10)
 			if l < 0 || o < 0 {
 				break
 			}
-			refs += l
-			if !spans[span{o, l}] {
-				spans[span{o, l}] = true
-				distinct += l
+			ex.refs += l
+			if !seen[[2]int{o, l}] {
+				seen[[2]int{o, l}] = true
+				ex.distinct += l
 			}
 		}
-		if refs >= 1<<21 && refs >= 8*distinct {
-			return "strings:" + target
-		}
 	}
-	return ""
+	return ex
 }
 
 // TestC02KnownAliasing runs the reproducers of the recorded finding.
@@ -222,6 +447,10 @@ func TestC02KnownAliasing(t *testing.T) {
 		{"gtab.Read/GPOS", aliasedLayoutTable("GPOS", 100, 65536)},
 		{"gdef.Read", aliasedGdef(100, 65536)},
 		{"name.Decode", aliasedName(600, 60000)},
+		{"gtab.Read/GSUB", rangeCoverageTable(100, 65536)},
+		{"gtab.Read/GPOS", zeroSizeRecordTable(true, 100, 0, 255, 256)},
+		{"gtab.Read/GPOS", zeroSizeRecordTable(false, 300, 0, 65535, 0)},
+		{"gdef.Read", rangeGdef(100, 65536)},
 	}
 	for _, c := range cases {
 		cls := aliasClass(c.target, c.b)
@@ -242,6 +471,9 @@ func TestC02KnownAliasing(t *testing.T) {
 		if err := tg.verdict(c.b, o); err != nil {
 			t.Fatalf("%v", err)
 		}
+		ex := walkExpansion(c.target, c.b)
+		t.Logf("%s: %d bytes, class %s, %d entries (%d distinct): %d bytes allocated = bound + %.0f per entry; accessors %d bytes; cpu %s + %s",
+			c.target, len(c.b), cls, ex.refs, ex.distinct, o.alloc, float64(o.alloc-limit)/float64(ex.refs), o.sweepAlloc, o.cpu, o.sweepCPU)
 		stats.CaseIn("known-aliasing", stats.Hash(c.target, c.b), true, func() string {
 			return fmt.Sprintf("%s: %d-byte table of class %s: %d bytes allocated (bound %d)", c.target, len(c.b), cls, o.alloc, limit)
 		}, "known:"+cls)
@@ -252,6 +484,22 @@ func TestC02KnownAliasing(t *testing.T) {
 // goes on inside the class (panics, hangs) while its allocation is matched.
 func aliasedSeed(t *rapid.T, target string) []byte {
 	n := rapid.IntRange(40, 120).Draw(t, "aliasRefs")
+	if target != "name.Decode" && rapid.Bool().Draw(t, "expandedNotAliased") {
+		// the same amounts without aliasing: ranges, zero-size records
+		cov := rapid.SampledFrom([]int{65536, 40000, 20000}).Draw(t, "aliasCov")
+		switch target {
+		case "gtab.Read/GSUB":
+			return rangeCoverageTable(n, cov)
+		case "gdef.Read":
+			return rangeGdef(n, cov)
+		default:
+			vf := rapid.SampledFrom([]int{0, 0x0100, 0xFF00}).Draw(t, "valueFormat")
+			if rapid.Bool().Draw(t, "pair") {
+				return zeroSizeRecordTable(true, n, vf, 255, rapid.IntRange(100, 256).Draw(t, "class2Count"))
+			}
+			return zeroSizeRecordTable(false, 3*n, vf, cov-1, 0)
+		}
+	}
 	switch target {
 	case "gtab.Read/GSUB":
 		return aliasedLayoutTable("GSUB", n, rapid.SampledFrom([]int{65536, 40000, 20000}).Draw(t, "aliasCov"))
